@@ -961,6 +961,11 @@ pub fn check(prop: &dyn Prop, a: &CheckArgs) -> i32 {
         });
     }
 
+    for (k, v) in &agg.notes {
+        if k.starts_with("HARNESS-ERROR") {
+            harness_errors.push(format!("{} (x{})", k, v));
+        }
+    }
     if agg.determinism_mismatch > 0 {
         harness_errors.push(format!(
             "{} of {} in-process determinism pairs diverged",
